@@ -468,10 +468,37 @@ def compare_files(text_a, text_b, width_a=128, width_b=128, check_comments=True)
         if len(ca) != len(cb):
             diffs.append(("card count", bi, [c.text for c in ca], [c.text for c in cb]))
             continue
-        for x, y in zip(ca, cb):
+        pairs = list(zip(ca, cb))
+        mism = [i for i, (x, y) in enumerate(pairs) if not cards_equal(x, y, bi)[0]]
+        if mism and bi == 2:
+            # same cards in another order?  (reported separately: kind 'order')
+            rest = list(cb)
+            perm = []
+            for x in ca:
+                for j, y in enumerate(rest):
+                    if cards_equal(x, y, bi)[0]:
+                        perm.append(y)
+                        del rest[j]
+                        break
+                else:
+                    perm = None
+                    break
+            if perm is not None:
+                moved = [ca[i].text.split()[0].upper() for i in mism]
+                diffs.append(("order", bi, moved, [c.text.split()[0] for c in ca], [c.text.split()[0] for c in cb]))
+                pairs = list(zip(ca, perm))
+        for x, y in pairs:
             ok, why = cards_equal(x, y, bi)
             if not ok:
                 diffs.append(("card", bi, why, x.text, y.text))
-            elif check_comments and comments_of(x) != comments_of(y):
-                diffs.append(("comments", bi, x.text, comments_of(x), comments_of(y)))
+        if check_comments:
+            # comments are compared as the ordered list of comment texts of the block: which card a C comment
+            # line between two cards "belongs" to is a convention of this reader, not of MCNP
+            xa = [t for c in ca for t in comments_of(c)]
+            xb = [t for c in cb for t in comments_of(c)]
+            if xa != xb and sorted(xa) != sorted(xb):
+                diffs.append(("comments", bi, [t for t in xa if t not in xb][:5], [t for t in xb if t not in xa][:5],
+                              len(xa), len(xb)))
+            elif xa != xb:
+                diffs.append(("comment-order", bi, xa[:8], xb[:8]))
     return diffs
